@@ -122,6 +122,18 @@ def chk_nomval(t):
     want = b"" if t == "CH" else b"\x00" * codec.tsize(t)
     if b != want:
         return [(f"{PROP}|nomval|{t[0]}|nonzero", f"val2bytes(nomval({t})) = {b!r}")]
+    if isinstance(nv, list) and nv:
+        # the caller owns the returned value: editing it must not change what the
+        # next call returns
+        nv[0] = 7
+        nv[-1] = 9
+        try:
+            b2 = pyubx2.val2bytes(pyubx2.nomval(t), t)
+        except Exception as err:  # noqa
+            return [(f"{PROP}|nomval|{t[0]}|raises", f"second nomval({t}) raised {err!r}")]
+        if b2 != want:
+            return [(f"{PROP}|nomval|{t[0]}|shared-value", f"nomval({t}) returns a shared list: after editing an "
+                                                           f"earlier result its encoding is {b2[:8]!r}..")]
     out = []
     if t != "CH" and (pyubx2.attsiz(t) != codec.tsize(t) or pyubx2.atttyp(t) != t[0]):
         out.append((f"{PROP}|attsiz|{t}", f"attsiz/atttyp({t}) = {pyubx2.attsiz(t)}/{pyubx2.atttyp(t)}"))
